@@ -24,6 +24,7 @@ RULE = (
     "BoolOp/UnaryOp node evaluates to is a member of the union of the Values pyanalyze inferred for that node; "
     "functions in which pyanalyze reported a diagnostic are discarded (blame rule). Non-trivial = a (node, value) "
     "check whose inferred type has no top-level Any (distinct by function source, node index, value)."
+    ' Since round d also: tuple / list displays with one starred part between single elements of different types indexed with literals -5..5, unpacking assignments (pair, head/rest, rest/last, nested, starred targets), pair / enumerate / items loops.'
 )
 ASSUMPTIONS = [
     "membership model pv/member.py; Unknown verdicts are skipped",
